@@ -30,6 +30,7 @@ type c11Cfg struct {
 	rateKind    string // peer | global | default
 	chanLocal   uint64 // msat the node can spend
 	chanRemote  uint64 // msat the node can receive
+	ownNet      string // the network the node's Bitcoin wallet reports
 }
 
 type c11Req struct {
@@ -71,7 +72,7 @@ func c11Admit(cfg c11Cfg, q c11Req, ownAsset string, openFee uint64, chanExists 
 	if chain == "lbtc" && !cfg.lqOn {
 		no("liquid disabled")
 	}
-	if chain == "btc" && q.network != sim.BtcParams.Name {
+	if chain == "btc" && q.network != cfg.ownNet {
 		no("other bitcoin network")
 	}
 	if chain == "lbtc" && q.asset != ownAsset {
@@ -132,9 +133,14 @@ func runC11World(r *Run, seed int64, nReq int) {
 		ratePPM: pick(rng, int64(0), 0, 0, 1, -1, 2000, -2000, 1_000_000, -1_000_000, 999_999, int64(rng.Intn(20000))-10000),
 		rateKind: pick(rng, "peer", "global", "default"),
 		chanLocal: pick(rng, uint64(0), 100_000_000, 1_000_000_000, 5_000_000_000), chanRemote: pick(rng, uint64(0), 100_000_000, 1_000_000_000, 5_000_000_000),
+		// the networks bitcoind can report; the two testnets are different chains whose names share a prefix
+		ownNet: pick(rng, sim.BtcParams.Name, sim.BtcParams.Name, sim.BtcParams.Name, "testnet3", "testnet4", "mainnet", "signet"),
 	}
 	mal := w.AddPeer("mallory")
 	nc := sim.DefaultNodeConfig()
+	if cfg.ownNet != sim.BtcParams.Name {
+		nc.BtcNetworkName = cfg.ownNet
+	}
 	nc.BitcoinEnabled, nc.LiquidEnabled = cfg.btcOn, cfg.lqOn
 	nc.BtcBalance, nc.LbtcBalance = cfg.btcBal, cfg.lbtcBal
 	var pol strings.Builder
@@ -197,7 +203,7 @@ func runC11World(r *Run, seed int64, nReq int) {
 		key, _ := btcec.NewPrivateKey()
 		q := c11Req{typ: typ, version: 7, scid: scid, pubkey: hx(key.PubKey().SerializeCompressed()), validMsg: true}
 		if chainPick == "btc" {
-			q.network = sim.BtcParams.Name
+			q.network = cfg.ownNet
 		} else {
 			q.asset = ownAsset
 		}
@@ -226,7 +232,10 @@ func runC11World(r *Run, seed int64, nReq int) {
 			}
 		case 3:
 			q.asset = ""
-			q.network = pick(rng, "mainnet", "testnet", "signet", "testnet3", "testnet4", "bitcoin", "", "junk")
+			q.network = pick(rng, "mainnet", "testnet", "signet", "testnet3", "testnet4", "bitcoin", "", "junk", "regtest")
+			if strings.HasPrefix(cfg.ownNet, "testnet") && rng.Intn(2) == 0 {
+				q.network = pick(rng, "testnet3", "testnet4", "testnet")
+			}
 			q.desc = append(q.desc, "network")
 			switch q.network {
 			case "bitcoin", "", "junk":
